@@ -61,6 +61,7 @@ def run(ctx):
     ctx.rule("C01.base-present", "every frozen base representative is still a table entry")
     ctx.rule("C01.entry-name", "a table value whose function name spells a coordinate signature is stored under that signature")
     ctx.rule("C01.result-shape", "number of returned values equals the arity of the declared result classes; float/bool entries return an arithmetic / boolean expression")
+    ctx.rule("C01.result-representable", "a vector result is declared with tau only when the transformed operand is stored with tau, and for the symmetric operations (num_vecargs = 2: add, subtract) only when every 4D operand is: a t-stored operand can carry a negative time component, which a tau-class result silently turns into its absolute value")
     ctx.rule("C01.table-complete", "the table's keys are the full product of coordinate systems for the operand dimensions of the module (x extra keys such as Euler orders)")
     ctx.rule("C01.dispatch-lookup", "dispatch() builds the lookup key from _aztype/_ltype/_ttype of the operands in the key order of the table")
     ctx.rule("C01.dispatch-args", "dispatch() passes lib, then scalar extras in the variants' order, then *v.<group>.elements in exactly the key's operand/group order")
@@ -124,6 +125,16 @@ def run(ctx):
             if ok_t is not None:
                 ctx.ob("C01.template", e.name, ok_t, msg, wit, fn_where(e.fn),
                        sample={"base": hit, "lifted": [ir.show(o)[:160] for o in outs]})
+            # representability of the declared temporal class
+            classes = [r for r in e.ret if r is not None and r in L.COORD_NAMES]
+            if len(classes) >= 3 and classes[2] is L.methods.TemporalTau:
+                ops4 = [ks for ks in e.kinds if len(ks) == 4]
+                sym = (dtab.get(short) or {}).get("num_vecargs") == 2
+                need = ops4 if sym else ops4[:1]
+                okr = bool(need) and all("tau" in ks for ks in need)
+                ctx.ob("C01.result-representable", e.name, okr,
+                       "the result is declared TemporalTau although an operand that determines its time component is stored with t (a negative t1 - t2 / t would come back as its absolute value)",
+                       {"operands": ["t" if "t" in ks else "tau" for ks in ops4], "symmetric": sym}, fn_where(e.fn))
             # result shape
             ok, msg = _shape_ok(L, e, t, outs)
             ctx.ob("C01.result-shape", e.name, ok, msg, None, fn_where(e.fn))
